@@ -3,6 +3,7 @@ import PrioModel.Messages
 import PrioModel.AggParam
 import PrioModel.FieldInst
 import PrioModel.Agg
+import PrioModel.Prng
 
 /-! Line-protocol driver: one request per line on stdin, one answer per line on stdout. -/
 open Prio
@@ -219,10 +220,102 @@ def handleFvMerge (args : List String) : String :=
       | _, _ => "bad-op"
   | _ => "bad-op"
 
+/-- a recorded byte tape as a stream; positions beyond the tape read as zero -/
+def tapeStream (tape : List Nat) : Stream :=
+  let a := tape.toArray
+  fun i => a.getD i 0
+
+/-- sampling mask of a field: `2^bitlen(p) - 1` -/
+def fieldMask (name : String) : Nat :=
+  match name with
+  | "FP32" => 2 ^ 32 - 1
+  | "FP64" => 2 ^ 64 - 1
+  | "FP128" => 2 ^ 128 - 1
+  | _ => 2 ^ 255 - 1
+
+def elemsHex (sz : Nat) (xs : List Nat) : String := toHex (xs.flatMap fun x => leBytesC x sz)
+
+def parseParts (s : String) : Option (List (List Nat)) :=
+  if s == "none" then some [] else (s.splitOn ",").mapM parseHex
+
+def handlePrng (args : List String) : String :=
+  match args with
+  | [f, n, tape] =>
+    match Msg.fieldSpec f, n.toNat?, parseHex tape with
+    | some F, some n, some t =>
+      match intoFieldVec (tapeStream t) F.p (fieldMask f) F.sz (t.length + 4) n with
+      | some (xs, st) => s!"{elemsHex F.sz xs} {st.pos}"
+      | none => "diverges"
+    | _, _, _ => "bad-op"
+  | _ => "bad-op"
+
+def handlePrng2 (args : List String) : String :=
+  match args with
+  | [n1, n2, tape] =>
+    match Msg.fieldSpec "FP64", Msg.fieldSpec "F255", n1.toNat?, n2.toNat?, parseHex tape with
+    | some F1, some F2, some n1, some n2, some t =>
+      let S := tapeStream t
+      match intoFieldVec S F1.p (fieldMask "FP64") F1.sz (t.length + 4) n1 with
+      | some (xs, st) =>
+        match st.take S F2.p (fieldMask "F255") F2.sz (t.length + 4) n2 with
+        | some (ys, st') => s!"{elemsHex F1.sz xs} {elemsHex F2.sz ys} {st'.pos}"
+        | none => "diverges"
+      | none => "diverges"
+    | _, _, _, _, _ => "bad-op"
+  | _ => "bad-op"
+
+def genRandLoop (S : Stream) (p mask sz fuel : Nat) : Nat → Nat → List Nat → Option (List Nat × Nat)
+  | 0, pos, acc => some (acc.reverse, pos)
+  | n + 1, pos, acc =>
+    match generateRandom S p mask sz fuel pos with
+    | some (x, pos') => genRandLoop S p mask sz fuel n pos' (x :: acc)
+    | none => none
+
+def handleGenRand (args : List String) : String :=
+  match args with
+  | [f, n, tape] =>
+    match Msg.fieldSpec f, n.toNat?, parseHex tape with
+    | some F, some n, some t =>
+      match genRandLoop (tapeStream t) F.p (fieldMask f) F.sz (t.length + 4) n 0 [] with
+      | some (xs, pos) => s!"{elemsHex F.sz xs} {pos}"
+      | none => "diverges"
+    | _, _, _ => "bad-op"
+  | _ => "bad-op"
+
+def handleXofAbs (args : List String) : String :=
+  match args with
+  | [kind, seed, dst, binder] =>
+    match parseHex seed, parseParts dst, parseParts binder with
+    | some s, some d, some b =>
+      let r := if kind == "ts" then turboShakeAbsorbed s d b
+               else if kind == "fk" then fixedKeyAbsorbed d b
+               else hmacAbsorbed d b
+      match r with
+      | some m => toHex m
+      | none => "panic"
+    | _, _, _ => "bad-op"
+  | _ => "bad-op"
+
+def handleFkReads (args : List String) : String :=
+  match args with
+  | [stream, sizes] =>
+    match parseHex stream, (sizes.splitOn ",").mapM String.toNat? with
+    | some st, some ns =>
+      let a := st.toArray
+      let block (c : Nat) : List Nat := (List.range 16).map fun i => a.getD (16 * c + i) 0
+      " ".intercalate ((fixedKeyReads block 0 ns).map toHex)
+    | _, _ => "bad-op"
+  | _ => "bad-op"
+
 def handle (line : String) : String :=
   match line.trimAscii.toString.splitOn " " with
   | "fp" :: rest => handleFp rest
   | "dec" :: rest => handleDec rest
+  | "prng" :: rest => handlePrng rest
+  | "prng2" :: rest => handlePrng2 rest
+  | "genrand" :: rest => handleGenRand rest
+  | "xofabs" :: rest => handleXofAbs rest
+  | "fkreads" :: rest => handleFkReads rest
   | "merge" :: rest => handleMerge rest
   | "agg" :: rest => handleAgg rest
   | "fvmerge" :: rest => handleFvMerge rest
